@@ -127,7 +127,9 @@ def check(ctx):
     rep.functions.add(fm.qualname)
     mp = fm.params()
     rets_m = [s for s in stmts_in(fm.node.body) if isinstance(s, ast.Return)]
-    rep.require(len(rets_m) == 1 and isinstance(rets_m[0].value, ast.DictComp), '_map_ids_to_genomes: does not return a dict comprehension')
+    rep.require(len(rets_m) >= 1 and isinstance(rets_m[-1].value, ast.DictComp), '_map_ids_to_genomes: does not return a dict comprehension')
+    rep.account_returns('R2', fm, rets_m[-1:], 'id map')
+    rets_m = rets_m[-1:]
     dc = rets_m[0].value
     g = dc.generators[0]
     rep.require(isinstance(g.target, ast.Tuple) and len(g.target.elts) == 2 and not g.ifs, '_map_ids_to_genomes: comprehension target is not a pair')
